@@ -56,6 +56,7 @@ QUICK_IDS = [{"i": 0}, {"i": -1}, {"i": 2 ** 63}, {"i": 2 ** 64 - 1}, J.S(""), J
 TEXTS = [J.cps("x"), J.cps(""), J.cps("tools/call"), J.cps("a\"b\\c\n\x00\x1f\x7f"), J.cps("é  \U0001F600")]
 LEAVES = [None, {"i": 0}, {"s": [97]}, {"o": []}, {"a": []}]
 KEYS = [[107], [0xE9]]
+NAMED_CODES = [-32700, -32600, -32601, -32602, -32603, -32000, -32001, -32002]
 CODES = [-32700, -32603, 0, 1, -1, 2 ** 31, -(2 ** 63), 2 ** 64 - 1]
 
 
@@ -142,6 +143,8 @@ def gen_cases(ctx, budget, names):
             out.append(_case(name))  # reported as unknown
             continue
         short = name.split(".")[-1]
+        if ".method:" in name:
+            short = "method:" + name.split(".method:", 1)[1]
         if fam == "ctor":
             is_resp = "create_response" in short
             is_err = "create_error_response" in short
@@ -210,12 +213,12 @@ def gen_cases(ctx, budget, names):
         elif fam == "server":
             if ".MCPServer." in name:
                 scen = {
-                    "_handle_tools_list": [("tools/list", None)],
-                    "_handle_tools_call": [("tools/call", {"o": [[J.cps("name"), J.S("ok")], [J.cps("arguments"), {"o": []}]]}),
+                    "method:tools/list": [("tools/list", None)],
+                    "method:tools/call": [("tools/call", {"o": [[J.cps("name"), J.S("ok")], [J.cps("arguments"), {"o": []}]]}),
                                            ("tools/call", {"o": [[J.cps("name"), J.S("bad")]]}),
                                            ("tools/call", {"o": [[J.cps("name"), J.S("nope")]]}), ("tools/call", None)],
-                    "_handle_resources_list": [("resources/list", None)],
-                    "_handle_resources_read": [("resources/read", {"o": [[J.cps("uri"), J.S("file:///ok")]]}),
+                    "method:resources/list": [("resources/list", None)],
+                    "method:resources/read": [("resources/read", {"o": [[J.cps("uri"), J.S("file:///ok")]]}),
                                                ("resources/read", {"o": [[J.cps("uri"), J.S("file:///bad")]]}),
                                                ("resources/read", {"o": [[J.cps("uri"), J.S("file:///nope")]]}), ("resources/read", None)],
                 }.get(short)
@@ -232,7 +235,7 @@ def gen_cases(ctx, budget, names):
             else:
                 scen = {
                     "handle_message": ["unknown", "no-method", "custom-result", "custom-raises", "ping", "initialize"],
-                    "_handle_ping": ["ping"], "_handle_initialize": ["initialize"], "_handle_initialized": ["initialized"],
+                    "method:ping": ["ping"], "method:initialize": ["initialize"], "method:notifications/initialized": ["initialized"],
                 }.get(short)
                 if scen is None:
                     out.append(_case(name, unknown_handler=True))
@@ -264,9 +267,10 @@ def gen_cases(ctx, budget, names):
             for i in ([None] if allow_null else []) + ids:
                 for t in TEXTS[: (3 if quick else 5)]:
                     for opt in (False, True):
-                        out.append(_case(name, id=i, text=t, opt=opt, payload=rng.choice(SPECIAL_PAYLOADS)))
+                        out.append(_case(name, id=i, text=t, opt=opt, payload=rng.choice(SPECIAL_PAYLOADS),
+                                         code=rng.choice(CODES + NAMED_CODES)))
             for ek in R.EXC_KINDS:
-                out.append(_case(name, id=pick_id(), text=pick_text(), exc=ek, payload=SPECIAL_PAYLOADS[1]))
+                out.append(_case(name, id=pick_id(), text=pick_text(), exc=ek, payload=SPECIAL_PAYLOADS[1], code=rng.choice(NAMED_CODES)))
         elif fam == "transport":
             kinds = R.CREATED_INNERS + R.DIRECT_INNERS
             for inner in kinds:
@@ -471,6 +475,7 @@ class Emitters(Suite):
     def __init__(self):
         self._obs = {}
         self.unknown = []
+        self.skipped = {}
 
     def _discover(self):
         return R.discover()
@@ -507,6 +512,9 @@ class Emitters(Suite):
 
     # -- oracle -------------------------------------------------------------------------------
     def oracle(self, case, o):
+        if o.get("skipped"):
+            self.skipped.setdefault(case["emitter"], o["skipped"])
+            return None  # a literal the harness cannot evaluate: a visible note, not a divergence
         if o.get("unknown"):
             return None  # reported through compare (broken correspondence), not a violation by itself
         for e in o["emitted"]:
@@ -536,6 +544,8 @@ class Emitters(Suite):
         fam = R.drivers().get(case["emitter"], ("unknown",))[0]
         if o.get("unknown"):
             return "unknown-emitter"
+        if o.get("skipped"):
+            return "literal/skipped"
         if not o["emitted"]:
             return f"{fam}/nothing-emitted/{'raised' if o.get('raised') else 'silent'}"
         e = o["emitted"][0]
@@ -768,3 +778,10 @@ _suites = [Emitters(), EmittersFallback(), EmittersFallbackStdlibJson()]
 
 def suites():
     return _suites
+
+
+def extra(ctx, tier):
+    """make literals the harness could not evaluate visible in the evidence"""
+    for su in _suites:
+        for em, why in sorted(su.skipped.items()):
+            ctx.notes.append(f"NOTE {su.name}: {em} not exercised: {why}")
